@@ -252,7 +252,10 @@ class Scheduler(object):
     if self.on_point:
       self.on_point(self, me, frame)
     self.cur_frame = frame
-    nxt = self._decide(me, 'line')
+    try:
+      nxt = self._decide(me, 'line')
+    finally:
+      self.cur_frame = None      # never keep a frame (and with it a whole thread stack) alive
     if nxt is not me:
       self._transfer(me, nxt)
 
